@@ -199,7 +199,8 @@ Theorem C06_pieces_eq_denotation_partial : forall body user p inputs D rs,
   (forall g, In g p -> fsub body p inputs D rs g) ->
   exists ps, map_run_sel body p inputs user None rs = ROk ps
     /\ (forall f, In f p -> ffull body p inputs D (p_store ps) f)
-    /\ (forall f o, In f p -> In o (fouts f) -> dict_get (p_out ps) o = dict_get (d_out D) o).
+    /\ (forall f o, In f p -> In o (fouts f) -> dict_get (p_out ps) o = dict_get (d_out D) o)
+    /\ Forall (dump_den body p inputs D) (p_tr ps).   (* and every value it dumps is the denoted one *)
 Proof. exact full_run_on_substore_denotes. Qed.
 Print Assumptions C06_pieces_eq_denotation_partial.
 
